@@ -341,6 +341,44 @@ pair_unit!(c08_pair_u64_x_f64__complete, U64, u64, F64, f64,
 pair_unit!(c08_pair_f64_x_f64__complete, F64, f64, F64, f64,
     "C08.pair.f64_f64.eq_symmetric", "C08.pair.f64_f64.cmp_antisymmetric", "C08.pair.f64_f64.cmp_equal_iff_eq", "C08.pair.f64_f64.eq_implies_same_hash", "C08.pair.f64_f64.partial_cmp_agrees_with_cmp", "C08.pair.f64_f64.cmp_equal_iff_eq_with_nan");
 
+// ---- string payloads (bounded): Value::Str x Value::Str, ASCII strings of length <= 2 -----------------------------------
+// ensures  == symmetric ; cmp antisymmetric ; (cmp == Equal) <=> (==) <=> same bytes ; == implies equal hashes ;
+//          reported signature is `s` ; &str -> Value -> &str returns the same string
+// @unit C08.pair.str_str props=C08 kind=bounded bound=ASCII,L<=2 fn=<zvariant::Value.as.PartialEq>::eq,<zvariant::Value.as.Ord>::cmp,<zvariant::Value.as.Hash>::hash,zvariant::Value::value_signature timeout=1800
+#[cfg(not(verif_skip_c08_pair_str_x_str__l2))]
+#[cfg(kani)]
+#[kani::proof]
+#[kani::stub(alloc::fmt::format, stub_format)]
+#[kani::unwind(12)]
+fn c08_pair_str_x_str__l2() {
+    let ba: [u8; 2] = kani::any();
+    let bb: [u8; 2] = kani::any();
+    kani::assume(ba[0] < 0x80 && ba[1] < 0x80 && bb[0] < 0x80 && bb[1] < 0x80);
+    let la: usize = kani::any();
+    let lb: usize = kani::any();
+    kani::assume(la <= 2 && lb <= 2);
+    let sa: &str = unsafe { core::str::from_utf8_unchecked(&ba[..la]) };
+    let sb: &str = unsafe { core::str::from_utf8_unchecked(&bb[..lb]) };
+    let a = ManuallyDrop::new(Value::Str(Str::from(sa)));
+    let b = ManuallyDrop::new(Value::Str(Str::from(sb)));
+    let (a, b): (&Value<'_>, &Value<'_>) = (&a, &b);
+    let same = la == lb && (la < 1 || ba[0] == bb[0]) && (la < 2 || ba[1] == bb[1]);
+    let eq_ab = a == b;
+    let c_ab = a.cmp(b);
+    obl!("C08.pair.str_str.eq_iff_same_bytes", eq_ab == same);
+    obl!("C08.pair.str_str.eq_symmetric", eq_ab == (b == a));
+    obl!("C08.pair.str_str.cmp_antisymmetric", c_ab == rev(b.cmp(a)));
+    obl!("C08.pair.str_str.cmp_equal_iff_eq", (c_ab == Ord_::Equal) == eq_ab);
+    if eq_ab { obl!("C08.pair.str_str.eq_implies_same_hash", h(a) == h(b)); }
+    obl!("C08.pair.str_str.signature_is_s", matches!(a.value_signature(), Signature::Str));
+    let back = <&str>::try_from(a);
+    match &back { Ok(t) => { obl!("C08.pair.str_str.conversion_round_trip", t.len() == la && t.as_ptr() == sa.as_ptr()); }
+                  Err(_) => { obl!("C08.pair.str_str.conversion_round_trip", false); } }
+    core::mem::forget(back);
+    kani::cover!(eq_ab && la == 2, "cover.equal_two_byte_strings");
+    kani::cover!(c_ab == Ord_::Less && la == lb, "cover.less_same_length");
+}
+
 // ---- contract (C03 clause "invalid object paths ... inside variants are rejected"): ValueSeed::visit_borrowed_str ----
 // This is where a dynamically typed consumer (`Value`) receives the string payload of an `o` / `g` / `s` typed value.
 // requires v ASCII, length <= N (bounded)
